@@ -84,6 +84,14 @@ def fanout_rules(eng: Engine, ck: Check, rule: str):
         ck.ob(rule, stc, lp, 'the loop over the live child list does not suspend (a child that closes during an awaited send is removed from the list '
               'under the loop, and the next child is skipped)', not (aw and live),
               f'await at line {aw[0].lineno} inside `for .. in self.children`' if aw else '', construct='fan-out loop atomic')
+    # what is queued for one child is queued on THAT child's connection only (containers are per instance), and queue_messages means
+    # one send task per message, in order
+    dn_ = eng.cls(DN, DIST)
+    n_pi = per_instance_state_rule(eng, ck, rule, [eng.cls('PeerConnection', CONN), dn_],
+                                   'a message queued for one child must not be visible to (or cancelled by the close of) any other connection')
+    ck.floor(rule + '.per-instance', n_pi, 2)
+    from . import defs
+    defs.queue_messages_definition(eng, ck, rule)
 
 
 def run(eng: Engine, ck: Check):
@@ -93,11 +101,6 @@ def run(eng: Engine, ck: Check):
 
     # ---- R-C14-FANOUT
     fanout_rules(eng, ck, 'R-C14-FANOUT')
-    n_pi = per_instance_state_rule(eng, ck, 'R-C14-FANOUT', [eng.cls('PeerConnection', CONN), dn],
-                                   'the search request queued for one child must not be visible to (or cancelled by the close of) any other connection')
-    ck.floor('R-C14-FANOUT.per-instance', n_pi, 2)
-    from . import defs
-    defs.queue_messages_definition(eng, ck, 'R-C14-FANOUT')
     fwd = handlers_for(eng, dn)
     ck.floor('R-C14-FANOUT.handlers', len(fwd), 3)
     for h, carrier in fwd:
@@ -196,3 +199,8 @@ def run(eng: Engine, ck: Check):
     for c in calls_on(qr.node, 'query'):
         ok = unparse(c.args[0]) == qr.params[3] if c.args else False
         ck.ob('R-C14-REPLY', qr, c, 'the shares are queried with the query string of the request', ok, unparse(c)[:80], construct='query string')
+    from . import defs as _d14
+    _d14.presence_truthiness(eng, ck, 'R-C14-OWN', [('Session', 'session.py')], 'the own-name guard is `if self._session and message.username == self._session.user.name`')
+    _d14.identity_semantics(eng, ck, 'R-C14-CHILDREN', [('PeerConnection', CONN)], 'the child list and the peer lookup compare connections; two connections of one user are different connections')
+    from . import defs as _d_act
+    _d_act.active_connection_definition(eng, ck, 'R-C14-REPLY', 'the search reply is sent over a connection picked by this test, or a new one is made')
